@@ -144,7 +144,31 @@ def thread_check(prop, tier, seed):
     return A.report(prop, results, mc, table, tier, seed, t0, ASSUME_THREADS)
 
 
+ASSUME_PURE = [
+    "TLC and the CommunityModules JSON reader are correct",
+    "the harness (vh-pure) calls every impl fully qualified (<L as PartialOrd<R>>::partial_cmp) and records the results faithfully",
+]
+
+
+def pure_check(prop, tier, seed):
+    from . import pure as P
+    t0 = time.time()
+    if prop == "C14":
+        res = [P.run_mode(prop, "cmp", tier, seed)]
+        rule = ("all pairs of byte strings of length <= 3 over {00,61,62,ff} (85^2) plus seeded longer pairs with common prefixes / non-UTF-8, each in "
+                "rotating representations of Bytes and BytesMut, evaluated by every PartialEq/PartialOrd/Ord/Hash/Borrow impl in both operand orders; "
+                "distinct = distinct (operands' prefix, lengths, representations)")
+    else:
+        res = [P.run_mode(prop, "fmt", tier, seed), P.run_mode(prop, "serde", tier, seed)]
+        rule = ("all 256 single bytes, all pairs over a boundary alphabet (quick) or all 65536 pairs (thorough), seeded longer strings, in rotating "
+                "representations: Debug / {:x} / {:X} output decoded by the literal grammar of spec/ByteLit.tla; serde: Serialize and every Visitor "
+                "entry point incl. sequences with no / exact / wrong size hints around the 4096 cap")
+    return P.report(prop, res, tier, seed, t0, ASSUME_PURE, rule)
+
+
 def run(prop, tier, seed):
+    if prop in ("C14", "C15"):
+        return pure_check(prop, tier, seed)
     if prop in ("C05", "C06"):
         return thread_check(prop, tier, seed)
     if prop in ("C09", "C10", "C11", "C12"):
